@@ -564,7 +564,12 @@ func (se *SessionExecutor) recycleBackendConn(pc backend.PooledConnect) {
 	}
 
 	if pc.IsClosed() {
-		se.recycleTx(pc)
+		if se.isInTransaction() {
+			// the transaction has lost this connection and cannot go on: the connection
+			// stays with the session, which Session.Run ends after the response
+			// (txConnLost); Session.Close rolls back and gives back everything it holds
+			return
+		}
 		se.forgetKsConn(pc)
 		pc.Recycle()
 		return
@@ -602,7 +607,10 @@ func (se *SessionExecutor) recycleContinueConn(pc backend.PooledConnect) {
 		return
 	}
 	if pc.IsClosed() {
-		se.recycleTx(pc)
+		if se.isInTransaction() {
+			// see recycleBackendConn
+			return
+		}
 		se.forgetKsConn(pc)
 		pc.Recycle()
 		return
@@ -1542,25 +1550,30 @@ func (se *SessionExecutor) handleSavepoint(stmt *ast.SavepointStmt) (err error) 
 	return
 }
 
-// recycleTx drops the transaction connections after one of them (lost) has been
-// closed: the others are rolled back and given back to their pools before they
-// are forgotten; lost itself is recycled by the caller.
-func (se *SessionExecutor) recycleTx(lost backend.PooledConnect) {
+// txConnLost tells whether the open transaction has lost one of its backend
+// connections (closed by a statement timeout, or found broken). Such a
+// transaction cannot be continued - certainly not on a new connection, which
+// would silently split it in two: the statement has failed, and Session.Run
+// ends the session after the response, as MySQL ends a session whose
+// connection is lost. Session.Close rolls back the other connections of the
+// transaction and gives all of them back.
+func (se *SessionExecutor) txConnLost() bool {
 	if !se.isInTransaction() {
-		return
+		return false
 	}
 	se.txLock.Lock()
 	defer se.txLock.Unlock()
 	for _, pc := range se.txConns {
-		if pc == lost {
-			continue
+		if pc.IsClosed() {
+			return true
 		}
-		if !pc.IsClosed() {
-			pc.Rollback()
-		}
-		pc.Recycle()
 	}
-	se.txConns = make(map[string]backend.PooledConnect)
+	for _, pc := range se.ksConns {
+		if pc.IsClosed() {
+			return true
+		}
+	}
+	return false
 }
 
 // handleKQuit close backend connection and recycle, only called when client exit
